@@ -9,11 +9,22 @@ Tr == Traces[tid]
 E == Tr[l]
 Clause(name, e) == IF e THEN TRUE ELSE PrintT(<<"FAILED", tid, l, name>>) /\ FALSE
 
+ErrClasses(c) == CASE c = "ZeroDivision" -> {"ZeroDivisionError"}
+                    [] c = "Unsupported" -> {"TypeError", "NotImplementedError"}
+                    [] c = "AnyErr" -> {"IndexError", "TypeError", "ValueError", "ZeroDivisionError", "NotImplementedError"}
+                    [] OTHER -> {"IndexError", "TypeError", "ValueError"}     \* which of the three: not specified
+ShapeIs(o, x) == x.tc = o.tc /\ x.nr = o.nr /\ x.nc = o.nc
 OutMatches(o, obs) ==
     CASE o.k = "num"  -> obs.k = "num" /\ obs.tc = o.tc /\ obs.v = o.v
       [] o.k = "mat"  -> obs.k = "mat"
       [] o.k = "none" -> obs.k = "none" \/ ("lax" \in DOMAIN o /\ obs.k = "err")
-      [] o.k = "err"  -> obs.k = "err" /\ obs.cls \in {"IndexError", "TypeError", "ValueError"}     \* which of the three: not specified
+      [] o.k = "err"  -> obs.k = "err" /\ obs.cls \in ErrClasses(o.cls)
+      [] o.k = "bool" -> obs.k = "bool" /\ obs.v = o.v
+      [] o.k = "seq"  -> obs.k = "seq" /\ obs.tc = o.tc /\ obs.vs = o.vs
+      \* a result outside the Gaussian integers: type and shape are specified, the values are not compared and the trace ends here
+      [] o.k = "cut"  -> IF "dst" \in DOMAIN E.op THEN obs.k = "mat" /\ E.op.dst \in DOMAIN E.heap /\ ShapeIs(o, E.heap[E.op.dst])
+                         ELSE obs.k = "none" /\ ShapeIs(o, E.heap[E.op.src])
+      [] o.k = "unspec" -> TRUE
 HeapMatches(h, e, obs) ==
     \A n \in Names : IF e[n] = Unbound THEN n \notin DOMAIN obs
                      ELSE n \in DOMAIN obs /\ obs[n].tc = h[e[n]].tc /\ obs[n].nr = h[e[n]].nr /\ obs[n].nc = h[e[n]].nc
@@ -21,15 +32,19 @@ HeapMatches(h, e, obs) ==
 AliasMatches(e, same) == \A a \in Names, b \in Names :
                             (e[a] # Unbound /\ e[b] # Unbound) => ((e[a] = e[b]) <=> (<<a, b>> \in {<<same[i][1], same[i][2]>> : i \in DOMAIN same}))
 
+Ends(o) == o.k \in {"cut", "unspec"}
 TStep == /\ l <= Len(Tr)
          /\ Do(E.op)
+         /\ Clause("exact-values", IF Ends(out') THEN TRUE ELSE ~E.nonint)        \* the model's result is exact: so must the implementation's be
          /\ Clause("result", OutMatches(out', E.out))
-         /\ Clause("objects", HeapMatches(heap', env', E.heap))
-         /\ Clause("identity", AliasMatches(env', E.same))
+         \* (IF, not \/: TLC evaluates both disjuncts of a disjunction in an action)
+         /\ IF Ends(out') THEN TRUE ELSE Clause("objects", HeapMatches(heap', env', E.heap))
+         /\ IF Ends(out') THEN TRUE ELSE Clause("identity", AliasMatches(env', E.same))
          /\ Clause("wellformed", WellFormed')
          /\ Clause("index-arguments-unchanged", E.idxok)
-TDone == l = Len(Tr) + 1 /\ PrintT(<<"ACCEPT", tid>>) /\ UNCHANGED vars
+         /\ l' = IF Ends(out') THEN Len(Tr) + 1 ELSE l + 1
+TDone == l = Len(Tr) + 1 /\ PrintT(<<"ACCEPT", tid>>) /\ UNCHANGED vars /\ l' = l + 1
 TInit == Init /\ tid \in 1..Len(Traces) /\ l = 1
-TNext == (TStep \/ TDone) /\ l' = l + 1 /\ UNCHANGED tid
+TNext == (TStep \/ TDone) /\ UNCHANGED tid
 TSpec == TInit /\ [][TNext]_<<vars, tid, l>>
 =============================================================================
